@@ -24,8 +24,10 @@ def make_job(ctx, name, harness, units, function, unwind=None, defines=(), front
 
 
 def write_inputs(path, inputs):
+    """inputs: dict name->value, or ordered list of (name, value) with repeats (k-th execution of a VF_IN site)."""
+    items = inputs.items() if isinstance(inputs, dict) else inputs
     with open(path, 'w') as f:
-        for k, v in inputs.items():
+        for k, v in items:
             if isinstance(v, int):
                 k2 = re.sub(r'\[(\d+)[a-zA-Z]*\]', r'[\1]', k)
                 f.write('%s %d\n' % (k2, v))
@@ -67,14 +69,15 @@ def native_replay(ctx, meta, inputs, tag, sanitize=True, timeout=60):
 def confirm(ctx, job, failure, key_extra=''):
     """Default confirmation: native re-execution must end in assert / crash / sanitizer report."""
     tag = re.sub(r'[^A-Za-z0-9_.-]', '_', job.name + '.' + failure['property'])
-    outcome, detail = native_replay(ctx, job.meta, failure['inputs'], tag)
+    seq = [(k, v) for k, v in failure.get('assignments', []) if isinstance(v, int)] or failure['inputs']
+    outcome, detail = native_replay(ctx, job.meta, seq, tag)
     ok = outcome in ('assert', 'crash', 'sanitizer', 'timeout')
     loc = failure.get('location') or {}
     key = '%s|%s|%s|%s:%s|%s' % (job.name, failure['property'], failure['description'], os.path.basename(loc.get('file', '?')),
                                  loc.get('function', '?'), key_extra)
     rp = vf.save_replay(ctx.prop, tag, {
         'property': ctx.prop, 'job': job.name, 'cbmc_property': failure['property'], 'description': failure['description'],
-        'location': loc, 'inputs': {re.sub(r'\[(\d+)[a-zA-Z]*\]', r'[\1]', k): v for k, v in failure['inputs'].items() if isinstance(v, int)},
+        'location': loc, 'inputs': [[re.sub(r'\[(\d+)[a-zA-Z]*\]', r'[\1]', k), v] for k, v in seq] if isinstance(seq, list) else seq,
         'meta': job.meta, 'native_outcome': outcome, 'native_output_tail': detail,
         'how_to_replay': 'python3 tools/replay.py <this file>  (rebuilds the harness and the /repo units natively and runs them on these inputs)'})
     return {'confirmed': ok, 'key': key, 'replay': rp,
